@@ -100,4 +100,4 @@ def run(ctx):
         ctx.sample({k: (wire_to_int(v) if isinstance(v, dict) else v) for k, v in r.items()})
     ctx.layers["BC"] = {"instances": len(cases), "disabled_by_policy": len(disabled), "operand_pairs_swept": swept, "records_validated_by_TLC": nval, "configs": cfgs}
     from .. import walks
-    walks.run(ctx, {"AddLit", "SubLit", "CmpLit", "Make"}, "mixed-unit + and - inside chains of operations", seed_offset=8)
+    walks.run(ctx, {"AddLit", "SubLit", "CmpLit", "ModLit", "Make"}, "mixed-unit + and - inside chains of operations", seed_offset=8)
